@@ -35,6 +35,9 @@ func (fc *FCtx) evalCall(e *ast.CallExpr, st *State) []Val {
 	}
 	fn := fc.calleeObj(e)
 	if fn == nil {
+		if r, ok := fc.callFuncValue(e, st); ok {
+			return r
+		}
 		oos("call through function value %s", name)
 	}
 	// chains that only feed dropped calls: ctx.EventManager(), ctx.Logger()
@@ -83,8 +86,78 @@ func (fc *FCtx) evalCall(e *ast.CallExpr, st *State) []Val {
 			return fc.inlineCall(fi, e, recvExpr, st)
 		}
 	}
+	if isPureExtern(name) {
+		return fc.pureExternCall(name, fn, e, recvExpr, st)
+	}
 	oos("call to %s without contract", name)
 	return nil
+}
+
+var pureExternPrefixes = []string{
+	"(github.com/cosmos/cosmos-sdk/types.Coins).", "(github.com/cosmos/cosmos-sdk/types.DecCoins).", "(github.com/cosmos/cosmos-sdk/types.Coin).", "(github.com/cosmos/cosmos-sdk/types.DecCoin).",
+	"github.com/cosmos/cosmos-sdk/types.NewCoins", "github.com/cosmos/cosmos-sdk/types.NewCoin", "github.com/cosmos/cosmos-sdk/types.NewDecCoinsFromCoins", "github.com/cosmos/cosmos-sdk/types.NewDecCoins",
+	"github.com/cosmos/cosmos-sdk/types.AccAddressFromBech32", "github.com/cosmos/cosmos-sdk/types.ValAddressFromBech32",
+	"github.com/cosmos/cosmos-sdk/types/address.Module",
+	"strings.", "bytes.", "encoding/hex.", "strconv.", "crypto/sha256.Sum256", "github.com/cosmos/cosmos-sdk/types/address.MustLengthPrefix",
+	"(github.com/cosmos/cosmos-sdk/types.AccAddress).Bytes", "(github.com/cosmos/cosmos-sdk/types.ValAddress).Bytes",
+	"github.com/cosmos/cosmos-sdk/x/auth/types.NewModuleAddress",
+	"(github.com/cosmos/cosmos-sdk/x/staking/types.ValidatorI).", "(github.com/cosmos/cosmos-sdk/x/staking/types.Validator).",
+	"github.com/cometbft/cometbft/crypto/tmhash.",
+}
+
+func isPureExtern(name string) bool {
+	for _, p := range pureExternPrefixes {
+		if strings.HasPrefix(name, p) {
+			return true
+		}
+	}
+	return false
+}
+
+// pureExternCall models a call to an external function as an application of an uninterpreted,
+// total, side-effect-free function of its arguments (one symbol per result). Listed as an
+// assumption in the evidence.
+func (fc *FCtx) pureExternCall(name string, fn *types.Func, e *ast.CallExpr, recvExpr ast.Expr, st *State) []Val {
+	sig := fn.Type().(*types.Signature)
+	var args []Val
+	if recvExpr != nil {
+		args = append(args, fc.eval(recvExpr, st))
+	}
+	for _, a := range e.Args {
+		args = append(args, fc.eval(a, st))
+	}
+	if e.Ellipsis.IsValid() || sig.Variadic() && len(e.Args) != sig.Params().Len() {
+		// variadic call: arity varies per site; symbol name carries the arity
+	}
+	var sorts []*Sort
+	var ts []string
+	for _, a := range args {
+		if strings.HasPrefix(a.T, "@") {
+			oos("handle passed to external function %s", name)
+		}
+		sorts = append(sorts, a.S)
+		ts = append(ts, a.T)
+	}
+	fc.assumed["external function modelled as uninterpreted total function: "+name] = true
+	var res []Val
+	for i := 0; i < sig.Results().Len(); i++ {
+		rt := sig.Results().At(i).Type()
+		s := fc.U.SortOf(rt)
+		fname := fmt.Sprintf("ext_%s_%d_r%d", sanitize(name), len(args), i)
+		var sn []string
+		for _, so := range sorts {
+			sn = append(sn, sanitize(so.Name))
+		}
+		fname += "_" + strings.Join(sn, "_")
+		if len(fname) > 200 {
+			fname = fname[:200]
+		}
+		fc.U.Fun(fname, sorts, s)
+		v := Val{T: app(fname, ts...), S: s, GoT: rt}
+		st.assume(fc.U.WF(v))
+		res = append(res, v)
+	}
+	return res
 }
 
 func isFmtArgs(name string) bool {
@@ -185,6 +258,18 @@ func (fc *FCtx) convert(e *ast.CallExpr, to types.Type, st *State) Val {
 		return fc.floatToInt(x, to, st)
 	case ts == x.S:
 		return Val{T: x.T, S: ts, GoT: to}
+	case isBz(ts) && x.S.Kind == KStr, ts.Kind == KStr && isBz(x.S):
+		fn := "conv_" + sanitize(x.S.Name) + "_" + sanitize(ts.Name)
+		inv := "conv_" + sanitize(ts.Name) + "_" + sanitize(x.S.Name)
+		fc.U.Fun(fn, []*Sort{x.S}, ts)
+		fc.U.Fun(inv, []*Sort{ts}, x.S)
+		r := Val{T: app(fn, x.T), S: ts, GoT: to}
+		if isBz(ts) {
+			st.assume(fmt.Sprintf("(and (= (bz_len %s) (str_len %s)) (not (= %s bz_nil)) (= (%s %s) %s))", r.T, x.T, r.T, inv, r.T, x.T))
+		} else {
+			st.assume(fmt.Sprintf("(and (= (str_len %s) (bz_len %s)) (=> (not (= %s bz_nil)) (= (%s %s) %s)))", r.T, x.T, x.T, inv, r.T, x.T))
+		}
+		return r
 	case ts.Kind == KSlice && x.S.Kind == KStr, ts.Kind == KStr && x.S.Kind == KSlice:
 		fn := "conv_" + sanitize(x.S.Name) + "_" + sanitize(ts.Name)
 		fc.U.Fun(fn, []*Sort{x.S}, ts)
@@ -233,6 +318,11 @@ func (fc *FCtx) evalBuiltin(name string, e *ast.CallExpr, st *State) []Val {
 			return []Val{{T: slCap(x), S: SInt, GoT: intT}}
 		case KStr:
 			return []Val{{T: app("str_len", x.T), S: SInt, GoT: intT}}
+		case KOpaque:
+			if isBz(x.S) {
+				return []Val{{T: app("bz_"+name, x.T), S: SInt, GoT: intT}}
+			}
+			oos("len of %s", x.S.Name)
 		case KMap:
 			fn := "card_" + x.S.Name
 			fc.U.Fun(fn, []*Sort{x.S}, SInt)
@@ -261,6 +351,19 @@ func (fc *FCtx) evalBuiltin(name string, e *ast.CallExpr, st *State) []Val {
 			}
 			return []Val{fc.zeroVal(t)}
 		case KOpaque:
+			if isBz(s) {
+				n := fc.eval(e.Args[1], st)
+				c := n
+				if len(e.Args) > 2 {
+					c = fc.eval(e.Args[2], st)
+				}
+				fc.panicCheck(st, "make-len", fmt.Sprintf("(and (<= 0 %s) (<= %s %s))", n.T, n.T, c.T), e.Pos())
+				b := fc.U.Fresh("mk", s)
+				fc.U.fresh++
+				iv := fmt.Sprintf("mi%d", fc.U.fresh)
+				st.assume(fmt.Sprintf("(and (= (bz_len %s) %s) (= (bz_cap %s) %s) (not (= %s bz_nil)) (forall ((%s Int)) (! (= (bz_at %s %s) 0) :pattern ((bz_at %s %s)))))", b, n.T, b, c.T, b, iv, b, iv, b, iv))
+				return []Val{{T: b, S: s, GoT: t}}
+			}
 			return []Val{{T: fc.U.Fresh("chan", s), S: s, GoT: t}}
 		}
 		oos("make of %s", s.Name)
@@ -294,6 +397,17 @@ func (fc *FCtx) evalBuiltin(name string, e *ast.CallExpr, st *State) []Val {
 		}
 		fc.kill(st)
 		return nil
+	case "recover":
+		s := fc.U.opaque("I_any")
+		fn := "isnil_" + s.Name
+		fc.U.Fun(fn, []*Sort{s}, SBool)
+		v := Val{T: fc.U.Fresh("recovered", s), S: s, GoT: fc.info().TypeOf(e)}
+		if fc.inRecover {
+			st.assume(not(app(fn, v.T)))
+		} else {
+			st.assume(app(fn, v.T))
+		}
+		return []Val{v}
 	case "copy":
 		oos("copy")
 	}
@@ -305,6 +419,24 @@ func (fc *FCtx) evalAppend(e *ast.CallExpr, st *State) Val {
 	s := fc.eval(e.Args[0], st)
 	t := fc.info().TypeOf(e)
 	rs := fc.U.SortOf(t)
+	if isBz(rs) {
+		if !isBz(s.S) {
+			s = Val{T: "bz_nil", S: rs, GoT: t}
+		}
+		if e.Ellipsis.IsValid() {
+			o := fc.eval(e.Args[1], st)
+			if !isBz(o.S) {
+				o = Val{T: fc.toBz(o), S: rs}
+			}
+			return Val{T: fmt.Sprintf("(bz_cat %s %s)", s.T, o.T), S: rs, GoT: t}
+		}
+		cur := s
+		for _, a := range e.Args[1:] {
+			v := fc.eval(a, st)
+			cur = Val{T: fmt.Sprintf("(bz_snoc %s %s)", cur.T, v.T), S: rs, GoT: t}
+		}
+		return cur
+	}
 	if s.S != rs {
 		s = fc.zeroVal(t) // append(nil, ...)
 	}
@@ -412,10 +544,32 @@ func (fc *FCtx) callByContract(c *FuncContract, fn *types.Func, sig *types.Signa
 			outs = append(outs, outParam{pn[i], a, pt})
 		}
 	}
+	gsuf := ""
+	bestLen := 0
+	for _, v := range names {
+		if v.S == nil || v.S.Kind != KOpaque {
+			continue
+		}
+		for ct, suf := range fc.ctxSuffixOf {
+			if len(ct) > bestLen && strings.Contains(v.T, ct) {
+				gsuf, bestLen = suf, len(ct)
+			}
+		}
+	}
+	// make sure the callee module's store ghost exists under that suffix
+	if gsuf != "" {
+		for _, g := range fc.ghostNames(st) {
+			if isStoreGhost(g) && !strings.Contains(g, "@") {
+				if _, ok := st.ghost[g+gsuf]; !ok {
+					st.ghost[g+gsuf] = st.ghost[g]
+				}
+			}
+		}
+	}
 	pre := st.clone()
 	// requires
 	for i, r := range c.Requires {
-		env := &Env{fc: fc, st: st, old: pre, names: names, pkg: fc.E.pkgOfContract(c)}
+		env := &Env{fc: fc, st: st, old: pre, names: names, pkg: fc.E.pkgOfContract(c), gsuf: gsuf}
 		t := fc.specBool(r.Expr, env)
 		fc.oblige(st, "call-pre@"+shortKey(c.Key), t, fmt.Sprintf("requires[%d] of %s: %s", i, c.Key, r.Src), e.Pos())
 	}
@@ -437,8 +591,8 @@ func (fc *FCtx) callByContract(c *FuncContract, fn *types.Func, sig *types.Signa
 		post[k] = v
 	}
 	for _, m := range c.Modifies {
-		if g, ok := st.ghost[m]; ok {
-			st.ghost[m] = Val{T: fc.U.Fresh("g_"+m, g.S), S: g.S, GoT: g.GoT}
+		if g, ok := st.ghost[m+gsuf]; ok {
+			st.ghost[m+gsuf] = Val{T: fc.U.Fresh("g_"+m, g.S), S: g.S, GoT: g.GoT}
 			continue
 		}
 		for _, o := range outs {
@@ -469,7 +623,7 @@ func (fc *FCtx) callByContract(c *FuncContract, fn *types.Func, sig *types.Signa
 		res = append(res, v)
 	}
 	for _, en := range c.Ensures {
-		env := &Env{fc: fc, st: st, old: pre, names: post, oldNames: names, pkg: fc.E.pkgOfContract(c)}
+		env := &Env{fc: fc, st: st, old: pre, names: post, oldNames: names, pkg: fc.E.pkgOfContract(c), gsuf: gsuf}
 		st.assume(fc.specBool(en.Expr, env))
 	}
 	return res
@@ -588,6 +742,18 @@ func (fc *FCtx) inlineCall(fi *FuncInfo, e *ast.CallExpr, recvExpr ast.Expr, st 
 		for i := 0; i < sig.Results().Len(); i++ {
 			rt := sig.Results().At(i).Type()
 			s := fc.U.SortOf(rt)
+			anyBz := false
+			for _, r := range fr.returns {
+				if r.vals[i].S != nil && r.vals[i].S.Name == "Bz" {
+					anyBz = true
+				}
+			}
+			if anyBz {
+				s = fc.U.BzSort()
+				for _, r := range fr.returns {
+					r.vals[i] = fc.asBz(r.vals[i])
+				}
+			}
 			same := true
 			for _, r := range fr.returns[1:] {
 				if r.vals[i].T != fr.returns[0].vals[i].T {
